@@ -150,7 +150,7 @@ fn normalise_error(e: &str) -> String {
 }
 
 fn node_kind(line: &str) -> String {
-    line.trim_start().split([':', ' ', '(']).next().unwrap_or("").to_string()
+    line.trim_start().split([':', ' ', '(', ',']).next().unwrap_or("").to_string()
 }
 
 fn indent_of(l: &str) -> usize {
@@ -194,40 +194,58 @@ fn plan_text(p: &Arc<dyn ExecutionPlan>) -> String {
     displayable(p.as_ref()).set_show_schema(true).indent(true).to_string()
 }
 
-/// Per-node comparison of what `properties()` promises to the parent operator.
-fn node_fails(sql: &str, conf: &str, a: &Arc<dyn ExecutionPlan>, b: &Arc<dyn ExecutionPlan>, path: &str, st: &mut Stats, out: &mut Vec<Fail>) {
+/// Per-node comparison of what `properties()` promises to the parent operator.  Properties are
+/// derived bottom-up, so a difference is reported at the *deepest* node showing it (a node none
+/// of whose children differs in the same property).  Returns the properties that differ at or
+/// below this node.
+fn node_fails(sql: &str, conf: &str, a: &Arc<dyn ExecutionPlan>, b: &Arc<dyn ExecutionPlan>, path: &str, st: &mut Stats, out: &mut Vec<Fail>) -> Vec<&'static str> {
     st.nodes += 1;
     if !st.operators.iter().any(|o| o == a.name()) {
         st.operators.push(a.name().to_string());
     }
     let here = format!("{path}/{}", a.name());
-    let mut diff = |what: &str, x: String, y: String| {
-        if x != y && !out.iter().any(|f| f.cause == format!("node_property_changed:{}:{what}", a.name())) {
-            out.push(Fail { cause: format!("node_property_changed:{}:{what}", a.name()), what: format!("{what} of node {here} changed in the round trip of {sql} [{conf}]: `{x}` became `{y}`") });
+    let (ca, cb) = (a.children(), b.children());
+    let mut below: Vec<&'static str> = vec![];
+    if ca.len() != cb.len() {
+        out.push(Fail { cause: format!("node_property_changed:{}:children", a.name()), what: format!("node {here} has {} children, the decoded one {} ({sql} [{conf}])", ca.len(), cb.len()) });
+        below.push("children");
+    } else {
+        for (i, (x, y)) in ca.iter().zip(cb.iter()).enumerate() {
+            for w in node_fails(sql, conf, x, y, &format!("{here}[{i}]"), st, out) {
+                if !below.contains(&w) {
+                    below.push(w);
+                }
+            }
         }
-    };
-    diff("operator", a.name().to_string(), b.name().to_string());
-    diff("output_partitioning", format!("{}", a.output_partitioning()), format!("{}", b.output_partitioning()));
-    diff(
-        "output_ordering",
-        a.output_ordering().map(|o| format!("{o}")).unwrap_or_else(|| "none".into()),
-        b.output_ordering().map(|o| format!("{o}")).unwrap_or_else(|| "none".into()),
-    );
-    diff("boundedness", format!("{:?}", a.boundedness()), format!("{:?}", b.boundedness()));
-    diff("emission_type", format!("{:?}", a.pipeline_behavior()), format!("{:?}", b.pipeline_behavior()));
-    diff("fetch", format!("{:?}", a.fetch()), format!("{:?}", b.fetch()));
-    diff("schema", format!("{:?}", a.schema()), format!("{:?}", b.schema()));
+    }
+    let props: Vec<(&'static str, String, String)> = vec![
+        ("operator", a.name().to_string(), b.name().to_string()),
+        ("output_partitioning", format!("{}", a.output_partitioning()), format!("{}", b.output_partitioning())),
+        (
+            "output_ordering",
+            a.output_ordering().map(|o| format!("{o}")).unwrap_or_else(|| "none".into()),
+            b.output_ordering().map(|o| format!("{o}")).unwrap_or_else(|| "none".into()),
+        ),
+        ("boundedness", format!("{:?}", a.boundedness()), format!("{:?}", b.boundedness())),
+        ("emission_type", format!("{:?}", a.pipeline_behavior()), format!("{:?}", b.pipeline_behavior())),
+        ("fetch", format!("{:?}", a.fetch()), format!("{:?}", b.fetch())),
+        ("schema", format!("{:?}", a.schema()), format!("{:?}", b.schema())),
+    ];
+    for (what, x, y) in props {
+        if x != y {
+            if !below.contains(&what) {
+                let cause = format!("node_property_changed:{}:{what}", a.name());
+                if !out.iter().any(|f| f.cause == cause) {
+                    out.push(Fail { cause, what: format!("{what} of node {here} changed in the round trip of {sql} [{conf}] (no child of it differs in {what}): `{x}` became `{y}`") });
+                }
+                below.push(what);
+            }
+        }
+    }
     if format!("{}", a.equivalence_properties()) != format!("{}", b.equivalence_properties()) {
         st.eq_properties_text_differs = true;
     }
-    let (ca, cb) = (a.children(), b.children());
-    if ca.len() != cb.len() {
-        out.push(Fail { cause: format!("node_property_changed:{}:children", a.name()), what: format!("node {here} has {} children, the decoded one {} ({sql} [{conf}])", ca.len(), cb.len()) });
-        return;
-    }
-    for (i, (x, y)) in ca.iter().zip(cb.iter()).enumerate() {
-        node_fails(sql, conf, x, y, &format!("{here}[{i}]"), st, out);
-    }
+    below
 }
 
 fn demo() -> Option<String> {
@@ -496,6 +514,21 @@ fn debug_main(args: &[String]) -> bool {
             match engine::block_on(a.state().create_physical_plan(&l)) {
                 Ok(p) => {
                     println!("original:\n{}", plan_text(&p));
+                    fn props(p: &Arc<dyn ExecutionPlan>, d: usize) {
+                        println!("{}{} | part={} | ord={} | eq={}", "  ".repeat(d), p.name(), p.output_partitioning(), p.output_ordering().map(|o| o.to_string()).unwrap_or("none".into()), p.equivalence_properties());
+                        for c in p.children() {
+                            props(c, d + 1);
+                        }
+                    }
+                    if args.iter().any(|a| a == "--props") {
+                        props(&p, 0);
+                        if let Ok(bytes) = physical_plan_to_bytes(p.clone()) {
+                            if let Ok(back) = physical_plan_from_bytes(&bytes, &b.task_ctx()) {
+                                println!("decoded properties:");
+                                props(&back, 0);
+                            }
+                        }
+                    }
                     match physical_plan_to_bytes(p.clone()) {
                         Ok(bytes) => match physical_plan_from_bytes(&bytes, &b.task_ctx()) {
                             Ok(back) => println!("decoded:\n{}", plan_text(&back)),
